@@ -388,8 +388,9 @@ func c13LoopInline(r *Run, fn *ssa.Function, at ssa.CallInstruction) {
 			return c13OnlyKinds(o, "wait-error") && len(o.sets) > 0 && setsNil(o) == "" && len(o.waits) > 0 && o.loops,
 				"200 with a body that does not parse ⇒ retried like a failed attempt: backoff.set(nil), wait, next attempt; only exit is the wait's error"
 		case "408":
-			return c13OnlyKinds(o, "wait-error") && len(o.sets) == 0 && len(o.waits) > 0 && o.loops,
-				"408 ⇒ next attempt, back-off state untouched (no set call), only exit is the wait's error"
+			noDelay, how := c13NoWaitSets(r, o.sets)
+			return c13OnlyKinds(o, "wait-error") && noDelay && len(o.waits) > 0 && o.loops,
+				"408 ⇒ next attempt without added delay (no set call, or only backoff.set(&d) with a constant d ≤ 0, which never adds delay: set[…override…] / set:no-wait-override-adds-no-delay), only exit is the wait's error" + how
 		case "429", "503":
 			return c13OnlyKinds(o, "wait-error") && len(o.sets) > 0 && len(o.waits) > 0 && o.loops,
 				code + " ⇒ backoff.set, wait, next attempt; only exit is the wait's error"
